@@ -8,10 +8,11 @@
    Premises are booleans evaluated on every generated case (CorrC02.premises): wf_jsonb (distinct view names and sofa ids,
    encodable texts, every structure found is typed, has plain distinct feature names, arrays hold lists, annotations carry
    a sofa of this CAS and offsets inside its text), 0 < c_next_id (the id generator hands out positive ids; replaces the
-   former premise stableb, now a theorem: ReachSpec.find_all_fs_stable), doc_ok_json (the written document is
-   well-formed: a boolean on the document alone). *)
+   former premise stableb, now a theorem: ReachSpec.find_all_fs_stable), ids_distinctb, refs_wfb, typed_jsonb (JsonWf.v),
+   initial_view_in, same_view_orderb; doc_ok_json (the written document is well-formed: a boolean on the document alone) is a
+   premise of the older `_partial` statements only and a theorem since Round 3 (C02_json_doc_ok). *)
 From Cassis Require Import Base Heap Schema Canon Reach JsonDoc Json JsonProofs JsonProofs2 JsonLoadProofs JsonLex CorrC02.
-From Cassis Require Import JsonWf JsonDocOk JsonRoundtrip.
+From Cassis Require Import JsonWf JsonDocOk JsonRoundtrip JsonResave.
 Open Scope Z_scope.
 
 (* ---- per-kind: decoding what the writer encodes gives the canonical value ---- *)
@@ -113,12 +114,12 @@ Print Assumptions C02_old_docann_skip_refuted.
    Full statements (DESIGN.md section 5, C02):
      json_roundtrip     : save_json L s mode c = Ok (d, c') -> wf.. -> load_json L s d = canon_json s c'
      json_resave_equal  : the document written from the loaded CAS equals d as a JSON value modulo member order
-   What is proved: the reader mechanism computes the declarative reading on every well-formed document
-   (C02_load_json_is_denotation, all presentations, all orders: no assumption about the reader is left), hence the round
-   trip for every written document that is well-formed.  doc_ok_json of the written document is proved for its closed part
-   (PropsJson: C04_json_ids_distinct, C04_json_refs_resolve) and evaluated in Coq for the rest (value kinds, key legality)
-   on every document cassis writes — hence still _partial.  For re-serialisation: equality of the denotations of the two
-   documents; JSON-value equality is established per case by the correspondence and the oracle. *)
+   Rounds 1-2 proved: the reader mechanism computes the declarative reading on every well-formed document
+   (C02_load_json_is_denotation, all presentations, all orders), hence the round trip for every written document that is
+   well-formed (C02_json_roundtrip_partial, premise doc_ok_json d) and equality of the denotations of two re-serialisations
+   (C02_json_resave_equal_partial).  Both `_partial` theorems are kept below as they were; Round 3 (further down) proves the full
+   statements: C02_json_doc_ok discharges doc_ok_json, C02_json_roundtrip has no premise about the document, and
+   C02_json_resave_equal is equality of the JSON values. *)
 Theorem C02_load_json_is_denotation : forall L s d cc,
   doc_ok_json L s d = true -> denote_json L s d = Ok cc -> load_json L s d = Ok (with_initial_view cc).
 Proof. exact load_json_is_denotation. Qed.
@@ -174,6 +175,54 @@ Theorem C02_json_resave_equal_partial : forall L s m1 m2 c1 d1 c1' c2 d2 c2',
 Proof. exact json_resave_same_denotation. Qed.
 Print Assumptions C02_json_resave_equal_partial.
 
+(* Round 3: json_resave_equal at the level of JSON values.  The writer's document is a function of the canonical content, of
+   the order of the views and of (schema, mode): `doc_of_canon` (JsonResave.v) rebuilds it from the canonical content — every
+   structure's members from its canonical entry (encc_fs: offsets through the converter of the annotation's own sofa, '#' keys
+   for special floats, '@' keys for references, base64 byte arrays, no %ELEMENTS for empty arrays, null features omitted), the
+   sofa and view entries from the csofa, %TYPES from the types of the structures found in id order. *)
+Theorem C02_save_json_canon : forall L s mode c d c' cc,
+  lex_ok L -> save_json L s mode c = Ok (d, c') -> wf_jsonb s c' = true -> 0 < c_next_id c ->
+  ids_distinctb s c' = true -> refs_wfb s c' = true -> canon_json s c' = Ok cc ->
+  doc_of_canon L s mode (map (fun v => s_name (v_sofa v)) (c_views c')) cc = Ok d.
+Proof. exact save_json_canon. Qed.
+Print Assumptions C02_save_json_canon.
+
+(* Full statement: two CASes with the same canonical content (the original after its save and the loaded one after its save:
+   the reader creates the views in document order, i.e. in the writer's order), saved in the same mode, give the same JSON
+   value — here even the same document, member order included; json_equiv is equality modulo member order *)
+Theorem C02_json_resave_equal : forall L s mode c1 d1 c1' c2 d2 c2',
+  lex_ok L ->
+  save_json L s mode c1 = Ok (d1, c1') -> wf_jsonb s c1' = true -> ids_distinctb s c1' = true -> refs_wfb s c1' = true -> 0 < c_next_id c1 ->
+  save_json L s mode c2 = Ok (d2, c2') -> wf_jsonb s c2' = true -> ids_distinctb s c2' = true -> refs_wfb s c2' = true -> 0 < c_next_id c2 ->
+  canon_json s c1' = canon_json s c2' -> same_view_orderb c1' c2' = true ->
+  d1 = d2 /\ jcanon d1 = jcanon d2.
+Proof. exact json_resave_equal. Qed.
+Print Assumptions C02_json_resave_equal.
+Theorem C02_json_resave_equiv : forall L s mode c1 d1 c1' c2 d2 c2',
+  lex_ok L ->
+  save_json L s mode c1 = Ok (d1, c1') -> wf_jsonb s c1' = true -> ids_distinctb s c1' = true -> refs_wfb s c1' = true -> 0 < c_next_id c1 ->
+  save_json L s mode c2 = Ok (d2, c2') -> wf_jsonb s c2' = true -> ids_distinctb s c2' = true -> refs_wfb s c2' = true -> 0 < c_next_id c2 ->
+  canon_json s c1' = canon_json s c2' -> same_view_orderb c1' c2' = true ->
+  json_equiv d1 d2 = true.
+Proof. exact json_resave_equiv. Qed.
+Print Assumptions C02_json_resave_equiv.
+
+(* When the views of the two CASes are in different orders the documents are NOT the same JSON value (%FEATURE_STRUCTURES is an
+   array: per view its byte array and its sofa, in view order).  What holds then: same %TYPES, same structures in the same
+   order after that prefix; the prefix and the members of %VIEWS are permuted.  (With different modes %TYPES differs; for
+   MINIMAL the list of used types is a function of the canonical content: found_of.) *)
+Theorem C02_json_resave_equal_any_view_order : forall L s mode c1 d1 c1' c2 d2 c2',
+  lex_ok L ->
+  save_json L s mode c1 = Ok (d1, c1') -> wf_jsonb s c1' = true -> ids_distinctb s c1' = true -> refs_wfb s c1' = true -> 0 < c_next_id c1 ->
+  save_json L s mode c2 = Ok (d2, c2') -> wf_jsonb s c2' = true -> ids_distinctb s c2' = true -> refs_wfb s c2' = true -> 0 < c_next_id c2 ->
+  canon_json s c1' = canon_json s c2' ->
+  exists types pre1 pre2 fss vs1 vs2,
+    d1 = JObj (types ++ [(K_FS, JArr (pre1 ++ fss)); (K_VIEWS, JObj vs1)]) /\
+    d2 = JObj (types ++ [(K_FS, JArr (pre2 ++ fss)); (K_VIEWS, JObj vs2)]) /\
+    Permutation.Permutation pre1 pre2 /\ Permutation.Permutation vs1 vs2.
+Proof. exact json_resave_equal_perm. Qed.
+Print Assumptions C02_json_resave_equal_any_view_order.
+
 (* ---- non-vacuity: a CAS with three views (BMP/astral text, a sofa byte array without id), an extended
    DocumentAnnotation, annotations with offsets behind astral characters, arrays, reserved feature names, a shared
    reference: the premises hold, the document is well-formed and denotes the canonical content ---- *)
@@ -213,3 +262,23 @@ Example C02_premises_hold :
   | _ => False
   end.
 Proof. vm_compute. repeat split; try reflexivity; repeat constructor. Qed.
+
+(* non-vacuity of json_resave_equal: the CAS the save left behind, saved again (now every structure carries an id, the
+   generator has advanced): all premises hold for both saves, the canonical contents and the view orders agree, the document
+   is rebuilt from the canonical content, and the two documents are equal *)
+Example C02_resave_premises_hold :
+  let s := full_schema (c_user ex_case) in
+  match save_json std_lex s MMinimal (c_cas ex_case) with
+  | Ok (d, c') =>
+      match save_json std_lex s MMinimal c' with
+      | Ok (d2, c'') =>
+          wf_jsonb s c'' = true /\ ids_distinctb s c'' = true /\ refs_wfb s c'' = true /\ typed_jsonb s c'' = true /\ 0 < c_next_id c' /\
+          canon_json s c' = canon_json s c'' /\ same_view_orderb c' c'' = true /\
+          (match canon_json s c' with
+           | Ok cc => doc_of_canon std_lex s MMinimal (map (fun v => s_name (v_sofa v)) (c_views c')) cc = Ok d
+           | _ => False end) /\
+          d = d2 /\ json_equiv d d2 = true
+      | _ => False end
+  | _ => False
+  end.
+Proof. vm_compute. repeat split; reflexivity. Qed.
